@@ -151,9 +151,9 @@ func (c *inlCtx) candidate(e ast.Expr) (*ast.CallExpr, *Func) {
 		}
 	}
 	sig := f.Sig()
-	if sig.TypeParams().Len() > 0 {
-		// a generic function: its text can be spliced only if its body never names a type parameter (the parameters
-		// themselves are substituted or bound with :=, which needs no type text)
+	if sig.TypeParams().Len() > 0 && c.typeArgsOf(call, f) == nil {
+		// a generic function whose instantiation cannot be written here: its text can be spliced only if its body never
+		// names a type parameter (the parameters themselves are substituted or bound with :=, which needs no type text)
 		mentions := false
 		ast.Inspect(f.Body, func(n ast.Node) bool {
 			if id, ok := n.(*ast.Ident); ok {
@@ -340,6 +340,11 @@ func (c *inlCtx) exprRewrites(s ast.Stmt) {
 				return false
 			}
 			if r := c.betaReduce(x); r != nil {
+				cur.Replace(r)
+				return false
+			}
+		case *ast.IndexExpr, *ast.IndexListExpr:
+			if r := c.etaExpandInstance(x.(ast.Expr), cur); r != nil {
 				cur.Replace(r)
 				return false
 			}
@@ -1395,4 +1400,115 @@ func (c *inlCtx) resolvesSameLocal(name string, obj types.Object, pos token.Pos)
 	}
 	_, got := inner.LookupParent(name, pos)
 	return got == obj
+}
+
+// typeArgsOf: the call instantiates the generic function f; returns, per type parameter of f, the syntax of the type
+// argument as it can be written in this file (nil if the instance is unknown or a type argument cannot be written).
+func (c *inlCtx) typeArgsOf(call *ast.CallExpr, f *Func) map[types.Object]ast.Expr {
+	sig := f.Sig()
+	if sig == nil || sig.TypeParams().Len() == 0 {
+		return nil
+	}
+	var fid *ast.Ident
+	switch fx := unparen(call.Fun).(type) {
+	case *ast.Ident:
+		fid = fx
+	case *ast.SelectorExpr:
+		fid = fx.Sel
+	case *ast.IndexExpr:
+		fid = identOf(fx.X)
+	case *ast.IndexListExpr:
+		fid = identOf(fx.X)
+	}
+	if fid == nil {
+		return nil
+	}
+	o, _ := c.orig(fid).(*ast.Ident)
+	if o == nil {
+		return nil
+	}
+	inst, ok := c.info.Instances[o]
+	if !ok || inst.TypeArgs == nil || inst.TypeArgs.Len() != sig.TypeParams().Len() {
+		return nil
+	}
+	out := map[types.Object]ast.Expr{}
+	for i := 0; i < sig.TypeParams().Len(); i++ {
+		te := typeExpr(inst.TypeArgs.At(i), c.pkg.Types, c.file, c.info)
+		if te == nil {
+			return nil
+		}
+		out[sig.TypeParams().At(i).Obj()] = te
+	}
+	return out
+}
+
+// etaExpandInstance: a reference f[T…] to an instantiated generic new function that is not called where it stands
+// becomes func(params) results { return f[T…](params) } with the instantiated parameter and result types.
+func (c *inlCtx) etaExpandInstance(e ast.Expr, cur *astutil.Cursor) ast.Expr {
+	if _, isClone := c.n.back[e]; isClone {
+		return nil
+	}
+	if call, ok := cur.Parent().(*ast.CallExpr); ok && call.Fun == e {
+		return nil
+	}
+	var x ast.Expr
+	switch ix := e.(type) {
+	case *ast.IndexExpr:
+		x = ix.X
+	case *ast.IndexListExpr:
+		x = ix.X
+	default:
+		return nil
+	}
+	id := identOf(x)
+	if id == nil {
+		return nil
+	}
+	fn, _ := c.info.Uses[id].(*types.Func)
+	fn = originFunc(fn)
+	if fn == nil {
+		return nil
+	}
+	f := c.n.newFns[fn]
+	if f == nil || f.Pkg != c.pkg || c.n.cyclic[fn] || fn == c.self || f.Decl == nil || f.Decl.Recv != nil || f.Sig().TypeParams().Len() == 0 {
+		return nil
+	}
+	inst, ok := c.info.Instances[id]
+	if !ok {
+		return nil
+	}
+	isig, ok := inst.Type.(*types.Signature)
+	if !ok || isig.Variadic() {
+		return nil
+	}
+	ft := &ast.FuncType{Params: &ast.FieldList{}}
+	var args []ast.Expr
+	for i := 0; i < isig.Params().Len(); i++ {
+		te := typeExpr(isig.Params().At(i).Type(), c.pkg.Types, c.file, c.info)
+		if te == nil {
+			c.skip(e, f, "an instantiated parameter type cannot be written here")
+			return nil
+		}
+		nm := "arg" + strconv.Itoa(i+1) + "_" + strconv.Itoa(c.n.fresh())
+		ft.Params.List = append(ft.Params.List, &ast.Field{Names: []*ast.Ident{ast.NewIdent(nm)}, Type: te})
+		args = append(args, ast.NewIdent(nm))
+	}
+	if isig.Results().Len() > 0 {
+		ft.Results = &ast.FieldList{}
+		for i := 0; i < isig.Results().Len(); i++ {
+			te := typeExpr(isig.Results().At(i).Type(), c.pkg.Types, c.file, c.info)
+			if te == nil {
+				c.skip(e, f, "an instantiated result type cannot be written here")
+				return nil
+			}
+			ft.Results.List = append(ft.Results.List, &ast.Field{Type: te})
+		}
+	}
+	call := &ast.CallExpr{Fun: e, Args: args}
+	var body ast.Stmt = &ast.ExprStmt{X: call}
+	if isig.Results().Len() > 0 {
+		body = &ast.ReturnStmt{Results: []ast.Expr{call}}
+	}
+	c.done(e, f, "instantiated function value expanded to a literal")
+	return &ast.FuncLit{Type: ft, Body: &ast.BlockStmt{List: []ast.Stmt{body}}}
 }
